@@ -53,9 +53,9 @@ func vsModelCheck(run *core.Run, maxH, views int, tags string) {
 	run.Set("mc_config", fmt.Sprintf("VStore MaxH=%d views=%d tags=%s: %d distinct states, %d transitions, depth %d, %.0fs", maxH, views, tags, res.Distinct, res.Generated, res.Depth, res.Wall.Seconds()))
 	// negative controls: the behaviour of the code as found must be refuted by TLC
 	type nc struct {
-		name                string
-		fp, ft, fc, fs      bool
-		expect              string
+		name           string
+		fp, ft, fc, fs bool
+		expect         string
 	}
 	var controls []string
 	for _, c := range []nc{
